@@ -9,7 +9,7 @@ use crate::hal::{BudgetExceeded, BusEv, Effect, Fault, Src, Tl};
 use crate::json::J;
 use crate::ops::{Op, Stream};
 use crate::prng::Rng;
-use crate::rig::{bus16, bus8, guarded, CallResult, DispCfg, ModelId, Tr, BUILTIN};
+use crate::rig::{bus16, bus8, guarded, CallResult, DispCfg, ModelId, Tr};
 use crate::session::{Opened, Session};
 use crate::spec::{self, Ori};
 use crate::Args;
@@ -198,6 +198,24 @@ fn history_hostile(rng: &mut Rng, ops: &mut Vec<TOp>, wordmask: u16, max_n: usiz
             }
             _ => {}
         }
+    }
+    // the same command with the same parameters again (also right after itself), with opcodes a
+    // transport might know: address window, memory write, address mode, pixel format, reset
+    for _ in 0..rng.range(0, 3) {
+        let known = [0x2Au8, 0x2B, 0x2C, 0x36, 0x3A, 0x01, 0x11, 0x29, 0x33, 0x37];
+        let cmd = *rng.pick(&known);
+        let plen = match cmd {
+            0x2A | 0x2B => 4,
+            0x33 => 6,
+            0x37 => 2,
+            0x36 | 0x3A => 1,
+            _ => 0,
+        };
+        let op = TOp::Cmd { cmd, params: (0..plen).map(|_| rng.next() as u8 & 0x3).collect() };
+        let at = rng.below(ops.len() as u64 + 1) as usize;
+        ops.insert(at, op.clone());
+        let again = if rng.bool() { at + 1 } else { rng.range(at as i64 + 1, ops.len() as i64) as usize };
+        ops.insert(again, op);
     }
     if long_ok && rng.chance(1, 12) {
         // two fills of the same pixel with exactly k streamed bursts in between
@@ -1043,7 +1061,7 @@ pub fn c05(args: &Args) -> Acc {
     // (b) every built-in model on every transport it accepts: announced COLMOD vs colour type
     if args.want_stage("models") {
         let mut list: Vec<(ModelId, Tr)> = Vec::new();
-        for m in BUILTIN {
+        for m in crate::rig::builtin() {
             for t in [Tr::Spi, Tr::P8, Tr::P16] {
                 if t.type_checks(m.bits()) && m.supports(t.kind()) {
                     list.push((m, t));
@@ -1114,7 +1132,7 @@ pub fn c05(args: &Args) -> Acc {
     // and across release() + a new Display with the other colour format whose wire bytes overlap
     if args.want_stage("history") {
         let mut list: Vec<(ModelId, Tr)> = Vec::new();
-        for m in BUILTIN {
+        for m in crate::rig::builtin() {
             for t in [Tr::Spi, Tr::P8, Tr::P16] {
                 if t.type_checks(m.bits()) && m.supports(t.kind()) {
                     list.push((m, t));
